@@ -44,6 +44,11 @@ end Delay;""",
     "Plain": """function sq input Real a; output Real r; algorithm r := a * a + 1; end sq;
 model Plain parameter Real p = 0.5; Real x; Real y; Real w[2,2]; equation der(x) = sq(x) - y; y = if x > p then sq(p) else -x;
   w[1,1] = x; w[1,2] = y; w[2,1] = p; w[2,2] = x * y; end Plain;""",
+    # attributes written with a piecewise-linear helper function: the metadata's affine shortcut must not be taken when the helper
+    # is a call node (inline_functions=False) any more than when its body is inlined
+    "ClipAttr": """function Clip input Real v; output Real r; algorithm r := max(v, 0) + 0.5 * abs(v - 1); end Clip;
+model ClipAttr parameter Real cap = 3.0; parameter Real low = -2.0; Real x(max = Clip(cap), min = low - cap, nominal = Clip(low)); Real y(start = cap + low);
+equation der(x) = -x; y = x + Clip(cap); end ClipAttr;""",
     # der() of a function call that selects one element of a vector state: inlined it is der(x)[1], not inlined the chain rule
     # over the vector symbol x must give the same
     "DerCall": """function pick input Real v[3]; output Real r; algorithm r := v[2]; end pick;
@@ -115,7 +120,7 @@ def main():
                 break
     if payload.get("mode") == "bounded":
         print(json.dumps({"performed": True, "cases": n, "distinct_nontrivial": n, "failures": failures[:4],
-                          "rule": "4 real models (der() of a call of a function that picks one element of a vector state; for-loops reading one array through several index expressions and calling a user function; delay inside a loop; if-expression + function + matrix) x all 8 combinations of the three options (x expand_vectors in the thorough tier): variable lists, outputs, delay states and the residual / initial residual / metadata / delay-argument functions at a random point are compared with the all-True combination",
+                          "rule": "5 real models (attributes written with a piecewise-linear helper function; der() of a call of a function that picks one element of a vector state; for-loops reading one array through several index expressions and calling a user function; delay inside a loop; if-expression + function + matrix) x all 8 combinations of the three options (x expand_vectors in the thorough tier): variable lists, outputs, delay states and the residual / initial residual / metadata / delay-argument functions at a random point are compared with the all-True combination",
                           "bound": "%d model/option combinations, one random point (seed %d)" % (n, seed)}))
     else:
         f = failures[0] if failures else None
